@@ -50,12 +50,12 @@ def cases(tier, seed, info):
                     items.append(dict(t='ud', kind=kind, beh=beh, plugins=plugins, k=rep))
         for creator in ('X', 'Y', 'O', 'B', 'Q', 'Z'):
             for ref in ('BD', 'BC', '11', 'ZZ'):
-                for beh in ('0', '1', '2', '3', '4', '5'):
+                for beh in ('0', '1', '2', '3', '4', '5', '6'):
                     for plugins in (True, False):
                         items.append(dict(t='src', creator=creator, ref=ref, beh=beh, plugins=plugins, k=rep))
         for a in ('BD8DAA', 'BC8AAA', 'BD8DBB', 'BD8DCC', '1100AA', 'BC8ACC'):
             for b in ('BD8DAA', 'BC8AAA', 'BD8DBB', 'BD8DCC', 'BC8ABB'):
-                for beh_a in ((0, 3, 4, 5) if rep == 0 else (0, 1 + rep % 5)):
+                for beh_a in ((0, 3, 4, 5, 6) if rep == 0 else (0, 1 + rep % 6)):
                     items.append(dict(t='src2', a=a, b=b, beh_a=beh_a, k=rep))
         for sub in (72, 73, 84, 1, 99):
             for ver in (1, 2, 0, 3):
@@ -158,7 +158,7 @@ def _src(rng, it):
     s['words'][0][3] = (s['words'][0][3] & 0xF0) | int(it['beh'])
     pel = genpel.gen_pel(rng, kinds=[], creator=creator)
     pel['secs'] = [genpel.gen_mt(rng), s, genpel.gen_other(rng, 'MI')]
-    beh = {'0': 'ok', '1': 'null', '2': 'empty', '3': 'raise', '4': 'importerror', '5': 'raise_empty'}[it['beh']]
+    beh = {'0': 'ok', '1': 'null', '2': 'empty', '3': 'raise', '4': 'importerror', '5': 'raise_empty', '6': 'pynone'}[it['beh']]
     target = None
     if creator in ('X', 'Y'):
         target = creator.lower() + 'src'
